@@ -46,11 +46,11 @@ ASSUMPTIONS = [
     'tools are driven in-process through cli(argv, mode=...) with captured stdin/stdout',
 ]
 VACUITY = {
-    'result:both_ok': 2000, 'result:both_refuse': 3, 'oracle:exists': 50, 'oracle:mirror': 30,
-    'graph:saved': 300, 'graph:file': 300, 'graph:stdin': 30, 'graph:direct': 300,
-    'tool:cnfgen': 2000, 'tool:pbgen': 500, 'tool:kthlist2pebbling': 100, 'tool:cnfshuffle': 10,
-    'chain:len1': 100, 'chain:len2': 289, 'render:text_compared': 300, 'subcommands_covered': 33,
-    'transformations_covered': 17,
+    'result:both_ok': 4000, 'result:both_refuse': 3, 'oracle:exists': 200, 'oracle:mirror': 100,
+    'oracle:direct-call': 1500, 'graph:saved': 300, 'graph:file': 200, 'graph:stdin': 30,
+    'graph:direct': 300, 'tool:cnfgen': 2500, 'tool:pbgen': 500, 'tool:kthlist2pebbling': 400,
+    'tool:cnfshuffle': 30, 'tool:graph-argument': 150, 'chain:len1': 150, 'chain:len2': 578,
+    'render:text_compared': 1500, 'subcommands_covered': 33, 'transformations_covered': 17,
 }
 ENGINE = 'cli+table'
 TECHNIQUE = ('bounded exhaustive differential exploration of the command-line front ends against '
@@ -396,6 +396,14 @@ def check_formula_case(case, tmp, T, R=None):
             return out, 'violation'
         cands = None
         kinds = []
+        # a random construction with a modifier may be impossible for the drawn
+        # graph (no missing edge left to add ...): documented refusal of the
+        # graph argument itself, there is no graph to hand to the library
+        mods = ('addedges', 'splitedges', 'plantclique', 'plantbiclique')
+        alld = [gd for gd, _ in graphs] + [gd for lst in tgraphs for gd, _ in lst]
+        if status == 'clierror' and any(m in gd['tok'] for gd in alld for m in mods) and \
+           any(w in str(res) for w in ('does not have', 'larger than graph', 'does not fit')):
+            return out, 'graph_argument_refused'
     if status == 'exception':
         bad('exception:' + type(res).__name__, 'argv=%r raised %r' % (argv[1:], res))
         return out, 'violation'
@@ -1033,16 +1041,16 @@ def chain_cases(tier, seed):
                 if tr.random:
                     c['seed'] = 7
                 cs.append(c)
-    # length 2: all ordered pairs
+    # length 2: all ordered pairs (x base formula x parameter choice of each step)
+    combos = [(0, 1, 1), (1, 2, 1)]
+    if tier == 'thorough':
+        combos += [(2, 1, 1), (2, 1, 2), (0, 2, 2), (1, 1, 2)]
+    pp = {1: T.PAIR_PARAMS, 2: T.PAIR_PARAMS_2}
     for a in names:
         for b in names:
-            for bi in ((0, 1) if tier != 'thorough' else range(nb)):
-                pa = T.PAIR_PARAMS[a]
-                pb = T.PAIR_PARAMS[b]
-                if bi == 1:
-                    pa = T.PAIR_PARAMS_2[a]
+            for bi, ka, kb in combos:
                 c = {'kind': 'formula', 'tool': 'cnfgen', 'f': {'base': bi},
-                     'T': [[a, pa], [b, pb]]}
+                     'T': [[a, pp[ka][a]], [b, pp[kb][b]]]}
                 if T.TRANSFORMS[a].random or T.TRANSFORMS[b].random:
                     c['seed'] = 7 + bi
                 cs.append(c)
